@@ -92,7 +92,9 @@ def tid_catalogue(last, signed=None):
     return dict(TidWrapU="{%s}" % ", ".join(map(str, u)), TidWrapS="{%s}" % ", ".join(map(str, sg)), TidSmall="{0, 3}")
 
 
-def model_check(ev, vd, tier, work):
+def model_check_start(tier, work):
+    """Starts the model-checking runs in the background (they share nothing with the conformance part, which runs meanwhile);
+    -> (executor, runs, futures).  model_check_finish collects them in the main thread."""
     runs = []
     lit = dict(DevReplayPastBadTag="TRUE", DevScanAbort="TRUE", DevAsyncLastBadCommit="TRUE", DevCommitBreakContinues="TRUE")
     P = ["ReplayExact", "PassesAgree", "GroundTruthSound", "TypeOK"]
@@ -116,7 +118,9 @@ def model_check(ev, vd, tier, work):
                          ["ReplayExact", "ReplayExactAlways", "PassesAgree", "GroundTruthSound", "TypeOK"], None, None))
         runs.append(("property-conforming, csum v3 + async, 2 damages", mc_constants(Async=1, MaxDmg=2), ["ReplayExact", "PassesAgree"], None, None))
         runs.append(("literal, csum v3 + async, 2 damages", mc_constants(Async=1, MaxDmg=2, **lit), ["ReplayExactOrDev", "PassesAgree"], None, None))
-        runs.append(("literal, csum v2", mc_constants(Csum=2, MaxTags=2, **lit), ["ReplayExactOrDev", "PassesAgree"], None, None))
+        # 2 tags: one transaction can fill the whole ring; with the pinned code's DevCommitBreakContinues a failed commit block then
+        # makes PASS_SCAN run for ever (HANG; repaired in the tree, replays/C03/fixed_commit_break*.json): PassesAgreeOrDev
+        runs.append(("literal, csum v2", mc_constants(Csum=2, MaxTags=2, **lit), ["ReplayExactOrDev", "PassesAgreeOrDev"], None, None))
         runs.append(("two lives of the log, L=4, 1 block, 1 damage, csum v3 (property-conforming)", gen_constants(L=4, **two), G, None, None))
         runs.append(("two lives of the log, L=5, 1 block, partial writes, csum v1 (property-conforming)", gen_constants(L=5, Csum=1, MaxDmg=0, **two), G, None, None))
         runs.append(("two lives of the log, L=4, 1 block, 1 damage, csum v3 + async (literal)", gen_constants(L=4, Async=1, **dict(two, **lit)),
@@ -134,10 +138,10 @@ def model_check(ev, vd, tier, work):
         # beyond the exhaustive bound: simulation
         runs.append(("simulation L=8, 3 txns, 3 blocks, csum v3 + async, escapes, old times (property-conforming)",
                      mc_constants(L=8, Blocks="{1, 2, 3}", MaxTxn=3, MaxTags=2, MaxDmg=2, Async=1, EscSet="{0, 1}", OldTime=1),
-                     ["ReplayExact", "PassesAgree", "GroundTruthSound"], 40000, 12))
+                     ["ReplayExact", "PassesAgree", "GroundTruthSound"], 16000, 12))
         runs.append(("simulation L=8, 3 txns, 3 blocks, csum v1 (property-conforming)",
                      mc_constants(L=8, Blocks="{1, 2, 3}", MaxTxn=3, MaxTags=2, MaxDmg=2, Csum=1, Async=1, EscSet="{0, 1}"),
-                     ["ReplayExact", "PassesAgree", "GroundTruthSound"], 40000, 12))
+                     ["ReplayExact", "PassesAgree", "GroundTruthSound"], 16000, 12))
         runs.append(("simulation two lives of the log, L=6, 2 blocks, 1 damage, csum v3 (property-conforming)",
                      gen_constants(MaxGen=2, Skews="{0, 1}", MaxOver=1), ["ReplayExact", "PassesAgree", "GroundTruthSound"], 4000, 24))
     def one(i):
@@ -150,8 +154,17 @@ def model_check(ev, vd, tier, work):
                 f.write("CONSTANT DevTidZeroUnset <- PropertyConforming\n")
         modname = "Jbd2Gen" if two_lives else "Jbd2"
         return modname, T.tlc(os.path.join(SPEC, modname + ".tla"), cfg, workers=4, timeout=3000, xmx="4g", env=jenv(), simulate=sim, depth=depth)
-    with cf.ThreadPoolExecutor(max_workers=2) as ex:         # two model-checking runs at a time, 4 workers each
-        done = list(ex.map(one, range(len(runs))))
+    # quick: two runs at a time, thorough: three (4 workers each); the long simulations are started first
+    ex = cf.ThreadPoolExecutor(max_workers=2 if tier == "quick" else 3)
+    order = sorted(range(len(runs)), key=lambda i: (runs[i][3] is None, i))
+    futs = {i: ex.submit(one, i) for i in order}
+    return ex, runs, futs
+
+
+def model_check_finish(ev, vd, mc):
+    ex, runs, futs = mc
+    done = [futs[i].result() for i in range(len(runs))]
+    ex.shutdown()
     for (label, consts, invs, sim, depth), (modname, r) in zip(runs, done):
         ev.add_tlc(r, "%s %s: %s" % (modname, label, ", ".join(invs)))
         if r.violated:
@@ -566,19 +579,20 @@ def run(tier):
     vd = Verdict(PID, ev)
     load_known(vd)
     work = fast_tmp()
+    mc = None
     try:
         try:
             b = build.build()
         except RuntimeError as e:
             die_broken(str(e))
-        model_check(ev, vd, tier, work)
+        mc = model_check_start(tier, work)
         try:
             profs = ["ext4_1k", "ext3_1k", "ext4_4k_csum64"]
             bases = {p: Base(b, work, p) for p in profs}
         except (RuntimeError, ValueError) as e:
             die_broken("base image: %s" % e)
         rng = random.Random(seed())
-        n = 672 if tier == "quick" else 4480            # multiples of |damage kinds| x |feature configurations| = 224 (each journal: 3 replays + up to 3 of its second life)
+        n = 672 if tier == "quick" else 8960            # (runs while the model checker works) multiples of |damage kinds| x |feature configurations| = 224 (each journal: 3 replays + up to 3 of its second life)
         off = (seed() * 7919) % 224
         toff = (seed() * 104729) % (len(S.TID_KINDS) * len(S.TID_POS))      # stratum of the tid base: cycle of 33, co-prime with the 224
         journals = []
@@ -597,6 +611,7 @@ def run(tier):
                 first = (journals[0], r[0], o[0])
         xcheck_debugfs_writer(ev, vd, b, work, bases["ext4_1k"])
         repo_tests(ev, vd, b, work)
+        model_check_finish(ev, vd, mc)
         ev.cov["rule"] = ("journals drawn by a seeded sampler stratified over 16 feature configurations (csum none/v1/v2/v3 x 32/64-bit tags x async) "
                           "x 14 damage kinds x 33 placements of the tid base (unsigned wrap / signed boundary on the transaction s_sequence + d, d = -1..9 / small base), "
                           "on 3 image profiles; non-trivial = >= 1 committed transaction and >= 1 of {revoke hit, escaped block, "
@@ -624,6 +639,8 @@ def run(tier):
         ]
         return vd.finish()
     finally:
+        if mc is not None:
+            mc[0].shutdown(wait=True, cancel_futures=True)      # (only when the check broke off early: runs not yet started are dropped)
         shutil.rmtree(work, ignore_errors=True)
 
 
